@@ -10,10 +10,14 @@ package app
 // the model is replayed natively and must panic in the same function.
 
 import (
+	"errors"
+	"time"
+
 	nodestate "github.com/yandex/mysync/internal/app/node_state"
 	"github.com/yandex/mysync/internal/app/optimization"
 	"github.com/yandex/mysync/internal/dcs"
 	"github.com/yandex/mysync/internal/mysql"
+	"github.com/yandex/mysync/internal/util"
 	"github.com/yandex/mysync/internal/verifnd"
 )
 
@@ -250,3 +254,105 @@ func H_C20_background() {
 
 // H_C20_manager_faults: the manager iteration with one failing MySQL call anywhere.
 func H_C20_manager_faults() { H_C20_manager() }
+
+// ---- goroutines (C20, "repeated iterations do not accumulate goroutines") ----
+//
+// The fork-join helpers and the kill loop of SetReadOnlyWithForce are the places where the
+// daemon's iterations start goroutines. Everywhere else they are replaced by sequential models
+// (native replay must be deterministic); here the REAL bodies run under the engine's cooperative
+// goroutine model (one deterministic schedule per path, engine/symx/sched.go): whatever subset
+// of the per-host calls fails, the helper returns what its callers rely on and no goroutine it
+// started is left blocked.
+
+func H_C20_goroutines() {
+	verifnd.GoroutineBaseline()
+	VerifHook_getNodeStatesInParallel = nil
+	util.VerifHook_RunParallel = nil
+	all := []string{"h1", "h2", "h3", "h4"}
+	hosts := all[:verifnd.Choose("hosts", verifnd.Param("max_hosts", 3)+1)]
+	fail := map[string]bool{}
+	for _, h := range hosts {
+		fail[h] = verifnd.Choose("fail."+h, 2) == 1
+	}
+	anyFail := false
+	for _, h := range hosts {
+		anyFail = anyFail || fail[h]
+	}
+	errBoom := errors.New("boom")
+	ms := &nodestate.MasterState{ExecutedGtidSet: "x"}
+	getter := func(h string) (*nodestate.NodeState, error) {
+		if fail[h] {
+			return nil, errBoom
+		}
+		if h == "h1" {
+			return &nodestate.NodeState{PingOk: true, IsMaster: true, MasterState: ms}, nil
+		}
+		return &nodestate.NodeState{PingOk: true, SlaveState: &nodestate.SlaveState{MasterHost: "h1"}}, nil
+	}
+	cs, err := getNodeStatesInParallel(hosts, getter, verifLogger())
+	verifnd.Assert((err != nil) == anyFail, "goroutines.states.error-iff-a-getter-failed")
+	if !anyFail {
+		verifnd.Assert(len(cs) == len(hosts), "goroutines.states.complete")
+		for _, h := range hosts {
+			st := cs[h]
+			verifnd.Assert(st != nil, "goroutines.states.complete")
+			if st != nil && st.SlaveState != nil {
+				verifnd.Assert(st.MasterState == ms, "goroutines.states.master-linked")
+			}
+		}
+		verifnd.Reach("C20.go.states-ok")
+	} else {
+		verifnd.Assert(cs == nil, "goroutines.states.nil-on-error")
+		verifnd.Reach("C20.go.states-failed")
+	}
+	verifnd.Assert(verifnd.ParkedGoroutines() == 0, "goroutines.none-left-blocked")
+
+	res := util.RunParallel(func(h string) error {
+		if fail[h] {
+			return errBoom
+		}
+		return nil
+	}, hosts)
+	verifnd.Assert(len(res) == len(hosts), "goroutines.parallel.one-result-per-argument")
+	for _, h := range hosts {
+		e, ok := res[h]
+		verifnd.Assert(ok && (e != nil) == fail[h], "goroutines.parallel.result-is-the-call's")
+	}
+	verifnd.Assert(verifnd.ParkedGoroutines() == 0, "goroutines.none-left-blocked")
+	verifnd.Reach("C20.go.done")
+}
+
+// H_C20_force_readonly: the real Node.SetReadOnlyWithForce (three graceful attempts, then the
+// kill loop in a helper goroutine stopped through an unbuffered channel, then the forced attempt)
+// with every combination of failing attempts: it returns, the helper goroutine is gone, and
+// KILL is only sent while the forced attempt is being made.
+func H_C20_force_readonly() {
+	verifnd.GoroutineBaseline()
+	w := verifNewWorld(verifConfig("h1"), []string{"h1", "h2"}, nil)
+	verifHealthy(w, "h1")
+	mysql.VerifHook_Node_SetReadOnlyWithForce = nil
+	mysql.VerifHook_Node_getRunningQueryIDs = func(n *mysql.Node, excludeUsers []string, timeout time.Duration) ([]int, error) {
+		verifnd.Reach("C20.go.force-ro.kill-loop")
+		switch verifnd.Choose("running-queries", 3) {
+		case 0:
+			return nil, errors.New("processlist failed")
+		case 1:
+			return nil, nil
+		}
+		return []int{7, 9}, nil
+	}
+	w.fleet.FaultBudget, w.fleet.FaultKinds, w.fleet.FaultOnly = verifnd.Param("faults", 4), 1, "set_readonly"
+	super := verifnd.Choose("super", 2) == 1
+	if !super {
+		w.fleet.FaultOnly = "set_readonly_no_super"
+	}
+	err := w.app.cluster.Get("h1").SetReadOnlyWithForce([]string{"admin"}, super)
+	s := w.fleet.Servers["h1"]
+	if err == nil {
+		verifnd.Assert(s.ReadOnly && s.SuperRO == super, "goroutines.force-ro.nil-means-read-only")
+		verifnd.Reach("C20.go.force-ro.ok")
+	} else {
+		verifnd.Reach("C20.go.force-ro.failed")
+	}
+	verifnd.Assert(verifnd.ParkedGoroutines() == 0, "goroutines.none-left-blocked")
+}
